@@ -2,11 +2,14 @@
     Proved: the main chain after any history is an executable parent-linked path whose end state is
     the node's state (state_is_fold_of_branch; an invalid block is never on it); a reorganisation
     that completes installs exactly the gathered branch (swap_inv inside add_block_inv).
-    Not proved in Coq (checked on the implementation against an independent reference on every run):
-    best_is_longest_available, returned_txs.  best_is_longest_available is FALSE of the code when an
-    invalid block sits at the end of an orphan chain (known finding, see checks/C07.py). *)
+    Also proved (ChainDB/Fork.v, Trace.v): gather is complete for an available branch and the
+    reorganisation towards it succeeds (best_is_longest_available in step form, at the level of reorg
+    and of an in-order arrival); no_displace_equal_or_shorter; below_lib_never_displaces; returned_txs.
+    best_is_longest_available as a global invariant is FALSE of the code when an invalid block sits at
+    the end of an orphan chain: refuted with the witness of known finding
+    C07:orphan-chain-invalid-tail-blocks-reorg. *)
 From Coq Require Import NArith List Bool.
-From Verif Require Import ChainDB.Model ChainDB.Inv ChainDB.Reorg ChainDB.AddBlock.
+From Verif Require Import ChainDB.Model ChainDB.Inv ChainDB.Reorg ChainDB.AddBlock ChainDB.Fork ChainDB.Trace ChainDB.RefuteFork.
 Import ListNotations.
 Open Scope N_scope.
 
@@ -46,3 +49,101 @@ Proof.
   destruct (swap_chain_reads n m top news olds st Hl) as (A & _ & _ & _ & _ & B & C & _). auto.
 Qed.
 Print Assumptions C07_swap_installs_branch.
+
+(** best_is_longest_available, reorg level: for the tip [top] of a branch [L] that is fully stored,
+    parent-linked and consecutively numbered from its fork point [f] with the main chain, executable
+    from [f]'s state, strictly longer than the main chain, forking at or above the LIB and strictly
+    below the current tip, [reorg] succeeds: best = top, state = top's state, invariant kept. *)
+Theorem C07_reorg_switches_to_longer_available_branch :
+  forall (apply : sroot -> block -> option sroot) (spent : sroot -> txid -> bool),
+  (forall r b r', apply r b = Some r' -> NoDup (txs b) /\ forall t, In t (txs b) -> spent r t = false) ->
+  (forall r b r' t, apply r b = Some r' -> spent r' t = spent r t || mem t (txs b)) ->
+  forall (U : block -> Prop), (forall a b, U a -> U b -> hash_field a = hash_field b -> a = b) ->
+  forall (g : block),
+  forall n f L L' top, Inv apply spent U g n ->
+  mainb (dur n) (no f) = Some f -> no f < no (best n) -> lib n <= no f ->
+  linked f L -> L = L' ++ [top] ->
+  (forall c, In c L -> get_block (dur n) (hash_field c) = Some c) ->
+  (forall c m, In c L -> no c <= no (best n) -> mainb (dur n) (no c) = Some m -> hash_field c <> hash_field m) ->
+  valid_chain apply (root f) L -> no (best n) < no top ->
+  exists n', reorg apply true n top = (n', false) /\ best n' = top /\ sdb_root n' = root top /\
+             Inv apply spent U g n' /\ bad n' = bad n /\ lib n' = lib n.
+Proof. intros; eapply reorg_switches; eauto. Qed.
+Print Assumptions C07_reorg_switches_to_longer_available_branch.
+
+(** best_is_longest_available, arrival level (exact hypothesis: the arriving block is the tip of the
+    branch and no parked orphan is waiting for it, i.e. in-order delivery of the tip): the node
+    switches to the branch and its state is the branch's state. *)
+Theorem C07_best_is_longest_available_partial :
+  forall (apply : sroot -> block -> option sroot) (orphan_cap : nat) (spent : sroot -> txid -> bool),
+  (forall r b r', apply r b = Some r' -> NoDup (txs b) /\ forall t, In t (txs b) -> spent r t = false) ->
+  (forall r b r' t, apply r b = Some r' -> spent r' t = spent r t || mem t (txs b)) ->
+  forall (U : block -> Prop), (forall a b, U a -> U b -> hash_field a = hash_field b -> a = b) ->
+  forall (g : block),
+  forall n b f L, Inv apply spent U g n -> U b -> no b <> 0 ->
+  mem (hash_field b) (bad n) = false -> get_block (dur n) (hash_field b) = None ->
+  find_orphan (orphans n) (hash_field b) = None ->
+  mainb (dur n) (no f) = Some f -> no f < no (best n) -> lib n <= no f ->
+  linked f (L ++ [b]) ->
+  (forall c, In c L -> get_block (dur n) (hash_field c) = Some c) ->
+  (forall c m, In c L -> no c <= no (best n) -> mainb (dur n) (no c) = Some m -> hash_field c <> hash_field m) ->
+  valid_chain apply (root f) (L ++ [b]) -> no (best n) < no b ->
+  let r := add_block apply true orphan_cap n b in
+  snd r = ROk /\ best (fst r) = b /\ sdb_root (fst r) = root b /\ Inv apply spent U g (fst r).
+Proof. intros; eapply best_is_longest_available_partial; eauto. Qed.
+Print Assumptions C07_best_is_longest_available_partial.
+
+(** The global statement "every available branch tip is at most as high as the best block" is false
+    of the code (arrivals A1, B3 invalid, B2, B1). *)
+Theorem C07_best_is_longest_available_refuted :
+  exists (apply : sroot -> block -> option sroot) (spent : sroot -> txid -> bool) (U : block -> Prop) (g : block)
+         (l : list (N * block)),
+    (forall r b r', apply r b = Some r' -> NoDup (txs b) /\ forall t, In t (txs b) -> spent r t = false) /\
+    (forall r b r' t, apply r b = Some r' -> spent r' t = spent r t || mem t (txs b)) /\
+    (forall a b, U a -> U b -> hash_field a = hash_field b -> a = b) /\
+    Inv apply spent U g (init_node g) /\ (forall x, In x l -> U (snd x) /\ no (snd x) <> 0) /\
+    ~ Longest apply (history apply true 100 (init_node g) l).
+Proof. exact best_is_longest_available_refuted. Qed.
+Print Assumptions C07_best_is_longest_available_refuted.
+
+(** An arrival changes the best block only to a strictly higher one: shorter or equal branches never
+    displace, ties keep the incumbent. *)
+Theorem C07_no_displace_equal_or_shorter :
+  forall (apply : sroot -> block -> option sroot) (orphan_cap : nat) (spent : sroot -> txid -> bool),
+  (forall r b r', apply r b = Some r' -> NoDup (txs b) /\ forall t, In t (txs b) -> spent r t = false) ->
+  (forall r b r' t, apply r b = Some r' -> spent r' t = spent r t || mem t (txs b)) ->
+  forall (U : block -> Prop), (forall a b, U a -> U b -> hash_field a = hash_field b -> a = b) ->
+  forall (g : block),
+  forall n b, Inv apply spent U g n -> U b -> no b <> 0 ->
+  let n' := fst (add_block apply true orphan_cap n b) in
+  best n' = best n \/ no (best n) < no (best n').
+Proof. intros; eapply no_displace_equal_or_shorter; eauto. Qed.
+Print Assumptions C07_no_displace_equal_or_shorter.
+
+(** No arrival changes the main chain at or below the LIB reported by consensus. *)
+Theorem C07_below_lib_never_displaces :
+  forall (apply : sroot -> block -> option sroot) (orphan_cap : nat) (spent : sroot -> txid -> bool),
+  (forall r b r', apply r b = Some r' -> NoDup (txs b) /\ forall t, In t (txs b) -> spent r t = false) ->
+  (forall r b r' t, apply r b = Some r' -> spent r' t = spent r t || mem t (txs b)) ->
+  forall (U : block -> Prop), (forall a b, U a -> U b -> hash_field a = hash_field b -> a = b) ->
+  forall (g : block),
+  forall n b, Inv apply spent U g n -> U b -> no b <> 0 ->
+  let n' := fst (add_block apply true orphan_cap n b) in
+  forall k, k <= lib n -> k <= no (best n) -> mainb (dur n') k = mainb (dur n) k.
+Proof. intros; eapply below_lib_never_displaces; eauto. Qed.
+Print Assumptions C07_below_lib_never_displaces.
+
+(** The MemPoolPut messages of an arrival are exactly the transactions confirmed before and not
+    confirmed after it (txs(old branch) \ txs(new branch)). *)
+Theorem C07_returned_txs :
+  forall (apply : sroot -> block -> option sroot) (orphan_cap : nat) (spent : sroot -> txid -> bool),
+  (forall r b r', apply r b = Some r' -> NoDup (txs b) /\ forall t, In t (txs b) -> spent r t = false) ->
+  (forall r b r' t, apply r b = Some r' -> spent r' t = spent r t || mem t (txs b)) ->
+  forall (U : block -> Prop), (forall a b, U a -> U b -> hash_field a = hash_field b -> a = b) ->
+  forall (g : block),
+  forall n b, Inv apply spent U g n -> U b -> no b <> 0 ->
+  let n' := fst (add_block apply true orphan_cap n b) in
+  exists new, evs n' = new ++ evs n /\
+    forall t, In t (puts_of new) <-> (confirmed n t /\ ~ confirmed n' t).
+Proof. intros; eapply returned_txs; eauto. Qed.
+Print Assumptions C07_returned_txs.
